@@ -9,6 +9,7 @@ import (
 	"os/exec"
 	"path/filepath"
 	"regexp"
+	"runtime"
 	"strings"
 	"sync"
 	"time"
@@ -166,6 +167,9 @@ var solvers = []solverSpec{
 	}},
 }
 
+// solveSem limits the number of concurrent solver races.
+var solveSem = make(chan struct{}, runtime.NumCPU())
+
 // ScratchDir is where query files are written.
 var ScratchDir = os.TempDir()
 
@@ -175,6 +179,30 @@ var fileMu sync.Mutex
 // Solve races the installed solvers on the query. The first definite answer
 // (unsat or sat) wins.
 func Solve(q *Query, secs int, only ...string) Result {
+	if nq, back, ok := OrderAbstract(q); ok && len(back) > 0 {
+		r := solveRaw(nq, secs, only...)
+		if r.Status == "sat" {
+			m := map[int]*Term{}
+			for id, c := range r.Model {
+				if bv, isInt := back[id]; isInt && c.Op == "intconst" {
+					m[bv.ID] = BVC(c.C, bv.S.W)
+				} else {
+					m[id] = c
+				}
+			}
+			r.Model = m
+		}
+		if r.Status == "sat" || r.Status == "unsat" {
+			r.Solver += "/lia"
+			return r
+		}
+	}
+	return solveRaw(q, secs, only...)
+}
+
+func solveRaw(q *Query, secs int, only ...string) Result {
+	solveSem <- struct{}{}
+	defer func() { <-solveSem }()
 	text := q.Render()
 	fileMu.Lock()
 	fileSeq++
